@@ -35,8 +35,9 @@ ASSUMPTIONS = [
     "after a kill only 'untouched or completely fixed' is judged; after an injected OS error the reporting clause is recorded, not judged",
 ]
 PROBES = [
-    "kill_target_truncated",
-    "kill_between_levels",
+    "two_faults_in_one_run",
+    "kill_during_working_copy_write",
+    "kill_at_replace_step",
     "fault_in_nonfirst_file_with_later_file",
     "fault_in_rescan",
     "fault_in_token_pass_completed_file",
@@ -148,10 +149,21 @@ def _enumerate_faults(rng, sites, mode, names, tier):
                 faults.append({"kind": "oserror", "file": site[1], "plan": plan(site, "oserror:" + rng.choice(OSERRS))})
         for name in names:
             faults.append({"kind": "undecodable", "file": name, "plan": None, "poison": rng.choice(sorted(carriers.POISON))})
+        if mode == "fix":
+            # process death in the middle of rule dispatch / parsing (nothing may be damaged)
+            inflight = cb + parse + prov
+            for site in rng.sample(inflight, min(12, len(inflight))):
+                faults.append({"kind": "kill", "file": site[1], "plan": plan(site, "kill")})
+        faults.extend(_double_faults(rng, cb, parse, names, plan, 4))
         return faults
 
     # quick: a handful, spread over kinds
     wanted = 5
+    if mode == "fix" and rng.random() < 0.3 and (cb or parse):
+        site = rng.choice(cb + parse + prov)
+        faults.append({"kind": "kill", "file": site[1], "plan": plan(site, "kill")})
+    if rng.random() < 0.3:
+        faults.extend(_double_faults(rng, cb, parse, names, plan, 1))
     for _ in range(wanted):
         roll = rng.random()
         if mode == "fix" and fs and roll < 0.40:
@@ -169,6 +181,28 @@ def _enumerate_faults(rng, sites, mode, names, tier):
         else:
             faults.append({"kind": "undecodable", "file": rng.choice(names), "plan": None, "poison": rng.choice(sorted(carriers.POISON))})
     return faults
+
+
+def _double_faults(rng, cb, parse, names, plan, count):
+    """Two contained faults in two different files of one run."""
+    out = []
+    if len(names) < 2:
+        return out
+    for _ in range(count):
+        first, second = rng.sample(names, 2)
+        picks = []
+        for name in (first, second):
+            candidates = [s for s in cb + parse if s[1] == name]
+            if not candidates:
+                break
+            site = rng.choice(candidates)
+            if site[0] == "parse":
+                picks.append(plan(site, "badtok"))
+            else:
+                picks.append(plan(site, rng.choice(["raise", "raise_after"]), rng.choice(EXCS)))
+        if len(picks) == 2:
+            out.append({"kind": "cb" if picks[0]["site"] != "parse" else "parse", "file": first, "plan": picks[0], "more": [{"file": second, "plan": picks[1]}], "needs_coe": True})
+    return out
 
 
 def generate(rng, tier, index):
@@ -235,6 +269,13 @@ def _judge(sc, fault, stats):
     bad = fault["file"]
     kind = fault["kind"]
     plan = [fault["plan"]] if fault.get("plan") else None
+    more = fault.get("more") or []
+    if more:
+        if not coe:
+            return out, "double-fault-needs-coe", False
+        plan = plan + [m["plan"] for m in more]
+        stats["two_faults_in_one_run"] += 1
+    bad_files = [bad] + [m["file"] for m in more]
     faulted_files = files
     if kind == "undecodable":
         faulted_files = dict(files)
@@ -245,7 +286,7 @@ def _judge(sc, fault, stats):
     reply = run(_request(sc, faulted_files, sc["paths"], plan=plan), sc["cls"])
     status = reply.get("status")
     result = reply.get("result")
-    fired = bool(result and (kind == "undecodable" or result.get("fired")))
+    fired = bool(result and (kind == "undecodable" or len(result.get("fired") or []) == len(plan or [])))
     value = event_digest(reply)
     site = (fault.get("plan") or {}).get("site", "undecodable")
     act = (fault.get("plan") or {}).get("act", "-")
@@ -272,7 +313,11 @@ def _judge(sc, fault, stats):
     stats["fault_fired"] += 1
     stats["fired:" + kind] += 1
     if act.startswith("kill_trunc") or act.startswith("kill_partial"):
-        stats["kill_target_truncated"] += 1
+        stats["kill_target_truncated"] += 1  # only reachable when a target is opened for writing in place
+    if kind == "kill" and (site in ("copy/chunk", "fs/open-w/work-new", "fs/copyfile/work-new")):
+        stats["kill_during_working_copy_write"] += 1
+    if kind == "kill" and site.startswith(("fs/rename/", "fs/copymode/", "fs/chmod/")):
+        stats["kill_at_replace_step"] += 1
     if site == "copy/chunk" and (fault["plan"]["ord"] >= 2):
         stats["copy_multi_chunk"] += 1
     if natural:
@@ -288,11 +333,11 @@ def _judge(sc, fault, stats):
     tmp_after = sorted(reply.get("tmp", {}))
 
     # expectations -----------------------------------------------------
-    others = [n for n in names if n != bad]
+    others = [n for n in names if n not in bad_files]
     absent = None
     if others:
         absent_files = {n: files[n] for n in others}
-        absent_reply = cached_run(_request(sc, absent_files, [p for p in sc["paths"] if p != bad], world=sc["world"]), sc["cls"])
+        absent_reply = cached_run(_request(sc, absent_files, [p for p in sc["paths"] if p not in bad_files], world=sc["world"]), sc["cls"])
         if done(absent_reply):
             absent = (OpView(absent_reply["result"]["ops"][0]), tree_bytes(absent_reply))
         else:
@@ -319,7 +364,7 @@ def _judge(sc, fault, stats):
         elif view.exit != 1:
             out.append(violation("C15/reported:exit", "C15/reported:exit|%s|exit=%s" % (kind, view.exit), dict(where, exit=view.exit, stderr=view.stderr[-400:])))
         else:
-            named = bad in view.stderr
+            named = all(name in view.stderr for name in bad_files)
             if not named:
                 out.append(
                     violation(
@@ -364,7 +409,13 @@ def _judge(sc, fault, stats):
         if mode != "fix":
             out.append(violation("C15/damaged:scan-modified", "C15/damaged:scan-modified|%s" % kind, dict(where, file=name)))
             break
-        fixed = solo_bad if name == bad else (absent[1].get(name) if absent is not None else None)
+        if name == bad:
+            fixed = solo_bad
+        elif name in bad_files:
+            extra_ref = solo(name, originals[name], [f for f in sc["flags"]], "fix", probes=sc.get("probes"), cls=sc["cls"])
+            fixed = extra_ref.after if extra_ref.ok and extra_ref.exit in (0, 3) else None
+        else:
+            fixed = absent[1].get(name) if absent is not None else None
         if fixed is not None and final == fixed:
             continue
         damage = _classify_damage(final, original, fixed)
